@@ -1,2 +1,186 @@
-(* C10 — placeholder while the correspondence is being established. *)
-From DV Require Import Lib.Base Wire.Message Robust.Bus Robust.Env Robust.Mini.
+(* C10 — one misbehaving client cannot crash, corrupt or stall the bus.
+   Statements only; proofs in Proofs/Robust*.v (and Proofs/LoaderProofs.v of C11).
+
+   What is proved here is the LOGIC CORE of the property on the model Robust/Bus.v
+   (message loader composed with the transport phases, the connection table and an
+   abstract handshake automaton / bus core), for every history, every schedule and
+   every instantiation of handshake and core.  What a theorem about a model cannot
+   show — absence of crashes, memory errors, assertion failures and spinning in the
+   C daemon, bounded latency — is explored by tools/props/c10.py and is NOT claimed
+   here. *)
+From DV Require Import Lib.Base Gen.Tables Wire.Message Proofs.LoaderProofs Auth.Types Auth.Server Robust.Bus Robust.Env Robust.Mini Spec.RobustSpec
+  Proofs.RobustBase Proofs.RobustInv Proofs.RobustIso Proofs.RobustRefine Proofs.RobustEnv.
+Local Open Scope N_scope.
+
+Section Generic.
+  Context {A S O : Type}.
+  Variable P : ops A S O.      (* any handshake automaton, any bus core *)
+  Variable cf : cfg.           (* any limits *)
+
+  (* 1. "A client that sends an invalid message is disconnected, and nothing of that
+        message becomes visible to any other client."  The step in which the loader
+        finds c's stream invalid does exactly this: dispatch the messages that were
+        complete and valid before the invalid one, run bus_connection_disconnected for
+        c, take c's entry (and only c's) out of the table.  The invalid bytes are an
+        argument of nothing. *)
+  Theorem C10_invalid_disconnects_sender_only : forall (st : state A S) c d w x,
+    find_conn (s_conns st) c = Some x -> c_phase x = PMsg ->
+    l_corrupted (feed (c_loader x) d 0) = true ->
+    exists k1 o1 act cl k2 o2,
+      dispatch_all P (s_core st) c (c_active x) (l_msgs (feed (c_loader x) d 0)) = (k1, o1, act, cl) /\
+      o_disconnect P k1 c act = (k2, o2) /\
+      step P cf st (ERead c d w) =
+        (mkSt (s_now st) (remove_conn (s_conns st) c) k2, map OCore o1 ++ map OCore o2 ++ [OGone c]).
+  Proof. exact (invalid_disconnects_sender_only P cf). Qed.
+
+  Theorem C10_invalid_sender_gone_others_untouched : forall (st : state A S) c d w x,
+    find_conn (s_conns st) c = Some x -> c_phase x = PMsg -> l_corrupted (feed (c_loader x) d 0) = true ->
+    let st' := fst (step P cf st (ERead c d w)) in
+    find_conn (s_conns st') c = None /\
+    (forall e, e <> c -> find_conn (s_conns st') e = find_conn (s_conns st) e) /\
+    s_now st' = s_now st /\
+    In (OGone c) (snd (step P cf st (ERead c d w))).
+  Proof. exact (invalid_sender_gone P cf). Qed.
+
+  (* 2. "... (nor anything after it)".  Bus level: once the invalid stream has been
+        detected, whatever c still sends is ignored. *)
+  Theorem C10_nothing_after_corruption : forall (st : state A S) c d w x h2,
+    find_conn (s_conns st) c = Some x -> c_phase x = PMsg -> l_corrupted (feed (c_loader x) d 0) = true -> no_accept c h2 ->
+    let st' := fst (step P cf st (ERead c d w)) in
+    run P cf st' h2 = run P cf st' (strip c h2).
+  Proof. exact (nothing_after_corruption P cf). Qed.
+
+  (*    and the step sees the bytes only through the loader's outcome: two streams with
+        the same valid prefix are indistinguishable, whatever their invalid parts are *)
+  Theorem C10_invalid_bytes_invisible : forall (st : state A S) c x d1 d2 w1 w2,
+    find_conn (s_conns st) c = Some x -> c_phase x = PMsg ->
+    outcome (feed (c_loader x) d1 0) = outcome (feed (c_loader x) d2 0) ->
+    l_corrupted (feed (c_loader x) d1 0) = true ->
+    step P cf st (ERead c d1 w1) = step P cf st (ERead c d2 w2).
+  Proof. exact (same_outcome_same_step P cf). Qed.
+
+  (* 3. Isolation, full statement: for every history h1, every hostile chunk d that
+        makes c's stream invalid and every continuation h2 (in which the identity c is
+        not given to a new connection), the bus ends in the same state and has produced
+        the same outputs — to everybody — as in the history in which c sent only the
+        valid message prefix of d and then disconnected. *)
+  Definition C10_isolation_full_statement : Prop :=
+    forall (k : S) h1 c d w x h2,
+      let st := fst (run P cf (init k) h1) in
+      find_conn (s_conns st) c = Some x -> c_phase x = PMsg ->
+      l_corrupted (feed (c_loader x) d 0) = true -> no_accept c h2 ->
+      run P cf (init k) (h1 ++ ERead c d w :: h2) =
+      run P cf (init k) (h1 ++ ERead c (valid_prefix (c_loader x) d) w :: EEof c :: strip c h2).
+
+  (*    Proved GIVEN locality of load_message ([load_local], the hypothesis of C11's
+        chunking theorem: the verdict on a complete message does not depend on the bytes
+        that follow it), which is what makes "the valid prefix of d" loadable on its own;
+        load_local is tied to the code by the C11/C01 correspondence runs. *)
+  Theorem C10_isolation_partial : load_local -> C10_isolation_full_statement.
+  Proof. intros H k h1 c d w x h2. exact (isolation P cf H k h1 c d w x h2). Qed.
+
+  (*    Unconditional, message-level form: on every history the model's outputs and
+        final state are those of the ideal bus of Spec/RobustSpec.v, whose inputs are
+        messages (plus, at most, the bare fact "this stream is no longer valid"). *)
+  Theorem C10_isolation : forall (k : S) h,
+    irun P cf (abs_state (init k)) (abstract P cf (init k) h) =
+    (abs_state (fst (run P cf (init k) h)), snd (run P cf (init k) h)).
+  Proof. intros k h. exact (run_refines P cf (init k) h (Inv_init cf k)). Qed.
+
+  (*    before authentication, a client's bytes never reach the core at all *)
+  Theorem C10_preauth_silent : forall (st : state A S) c d w x,
+    find_conn (s_conns st) c = Some x -> unauthenticated x = true ->
+    (forall a, c_phase x = PAuth a -> match snd (o_auth_feed P a d) with ADone _ => False | _ => True end) ->
+    (c_phase x = PCred -> match d with b :: rest => b =? 0 = true -> match snd (o_auth_feed P (o_auth_init P) rest) with ADone _ => False | _ => True end | [] => True end) ->
+    let '(st', o) := step P cf st (ERead c d w) in
+    own_only P c (s_core st) (s_core st') o.
+  Proof. exact (preauth_silent P cf). Qed.
+
+  (* 4. Unauthenticated / unregistered connections are bounded in number and in time, in
+        every reachable state; the listening sockets are not served while the table is
+        full; the assertion in bus_connections_setup_connection cannot fail. *)
+  Theorem C10_incomplete_bounded : forall (k : S) h,
+    let st := fst (run P cf (init k) h) in
+    n_incomplete st <= max_incomplete cf /\
+    forall x, In x (s_conns st) -> c_active x = false -> s_now st - c_since x < auth_timeout cf.
+  Proof. exact (incomplete_bounded P cf). Qed.
+
+  Theorem C10_accept_gate : forall (st : state A S) c,
+    max_incomplete cf <= n_incomplete st -> step P cf st (EAccept c) = (st, [ORefused c]).
+  Proof. exact (accept_gate P cf). Qed.
+
+  Theorem C10_setup_assertion_holds : forall (k : S) h c,
+    let st := fst (run P cf (init k) h) in
+    n_incomplete (fst (step P cf st (EAccept c))) <= max_incomplete cf.
+  Proof. exact (setup_assertion_holds P cf). Qed.
+
+  (* 5. the correspondence run's environment performs steps of this model only *)
+  Theorem C10_env_run_is_run : forall (es : estate (A:=A) (S:=S)) h,
+    record_of P cf (e_bus es) (e_bus (fst (env_run P cf es h))) (concat (snd (env_run P cf es h))).
+  Proof. exact (env_run_is_run P cf). Qed.
+End Generic.
+
+(* loader level (C11): after corruption no message is ever produced again *)
+Theorem C10_loader_nothing_after_corruption : forall l chunks, l_corrupted l = true -> outcome (feed_all l chunks) = outcome l.
+Proof. exact corruption_is_final. Qed.
+
+Print Assumptions C10_invalid_disconnects_sender_only.
+Print Assumptions C10_invalid_sender_gone_others_untouched.
+Print Assumptions C10_nothing_after_corruption.
+Print Assumptions C10_invalid_bytes_invisible.
+Print Assumptions C10_isolation_partial.
+Print Assumptions C10_isolation.
+Print Assumptions C10_preauth_silent.
+Print Assumptions C10_incomplete_bounded.
+Print Assumptions C10_accept_gate.
+Print Assumptions C10_setup_assertion_holds.
+Print Assumptions C10_env_run_is_run.
+Print Assumptions C10_loader_nothing_after_corruption.
+
+(* ---- non-vacuity: the extracted instance on a concrete attack ------------------- *)
+Definition ex_auth : bytes := [0; 65; 85; 84; 72; 32; 69; 88; 84; 69; 82; 78; 65; 76; 32; 51; 48; 13; 10; 66; 69; 71; 73; 78; 13; 10].
+Definition ex_hello : bytes :=
+  [108; 1; 0; 1; 0; 0; 0; 0; 2; 0; 0; 0; 61; 0; 0; 0; 1; 1; 111; 0; 1; 0; 0; 0; 47; 0; 0; 0; 0; 0; 0; 0; 3; 1; 115; 0; 5; 0; 0; 0; 72; 101; 108; 108; 111; 0; 0; 0;
+   6; 1; 115; 0; 20; 0; 0; 0; 111; 114; 103; 46; 102; 114; 101; 101; 100; 101; 115; 107; 116; 111; 112; 46; 68; 66; 117; 115; 0; 0; 0; 0].
+Definition ex_signal : bytes :=
+  [108; 4; 0; 1; 0; 0; 0; 0; 1; 0; 0; 0; 42; 0; 0; 0; 1; 1; 111; 0; 2; 0; 0; 0; 47; 97; 0; 0; 0; 0; 0; 0; 2; 1; 115; 0; 3; 0; 0; 0; 97; 46; 98; 0; 0; 0; 0; 0;
+   3; 1; 115; 0; 1; 0; 0; 0; 83; 0; 0; 0; 0; 0; 0; 0].
+Definition ex_bad : bytes := 76 :: tl ex_signal.          (* first byte 'L': not a byte-order mark *)
+Definition ex_cfg : cfg := mkCfg 4 30000 32768.
+
+(* valid, INVALID, valid in one read: one Seen for the Hello, Hi, one Seen for the first
+   signal, then Bye and Gone; the third message is never dispatched *)
+Example ex_attack :
+  map (fun o => match o with OCore (_, Seen _ _) => 1 | OCore (_, Hi _) => 2 | OCore (_, Bye _) => 3 | OGone _ => 4 | OAuth _ _ => 5 | _ => 6 end)
+      (concat (mini_run 0 ex_cfg [EAccept 1; ERead 1 ex_auth true; ERead 1 (ex_hello ++ ex_signal ++ ex_bad ++ ex_signal) true]))
+  = [5; 1; 2; 1; 3; 4].
+Proof. vm_compute. reflexivity. Qed.
+
+(* the hypotheses of the isolation theorem are satisfiable, and the valid prefix is what one expects *)
+Definition is_pmsg {A} (x : conn A) : bool := match c_phase x with PMsg => true | _ => false end.
+Definition ex_state : state auth unit := fst (run (mini_ops 0) ex_cfg mini_init [EAccept 1; ERead 1 ex_auth true; ERead 1 ex_hello true]).
+Example ex_iso_hyp :
+  match find_conn (s_conns ex_state) 1 with
+  | Some x => is_pmsg x = true /\
+              l_corrupted (feed (c_loader x) (ex_signal ++ ex_bad ++ ex_signal) 0) = true /\
+              valid_prefix (c_loader x) (ex_signal ++ ex_bad ++ ex_signal) = ex_signal
+  | None => False
+  end.
+Proof. vm_compute. repeat split. Qed.
+
+(* the same with the invalid message split across two reads: its first 10 bytes stay in the loader *)
+Example ex_iso_partial :
+  match find_conn (s_conns (fst (step (mini_ops 0) ex_cfg ex_state (ERead 1 (firstn 10 ex_bad) true)))) 1 with
+  | Some x => l_corrupted (feed (c_loader x) (skipn 10 ex_bad) 0) = true /\
+              valid_prefix (c_loader x) (skipn 10 ex_bad) = []
+  | None => False
+  end.
+Proof. vm_compute. repeat split. Qed.
+
+(* the accept gate and the expiry on the instance: 4 connections fill the table, the 5th is refused;
+   after auth_timeout all are gone and the 5th gets in *)
+Example ex_gate :
+  map (map (fun o : out mout => match o with ORefused c => 100 + c | OGone c => c | _ => 0 end))
+      (mini_run 0 (mkCfg 4 1000 32768) [EAccept 1; EAccept 2; EAccept 3; EAccept 4; EAccept 5; ETick 999; ETick 1; EAccept 5])
+  = [[]; []; []; []; [105]; []; [1; 2; 3; 4]; []].
+Proof. vm_compute. reflexivity. Qed.
